@@ -55,6 +55,26 @@ CHECKS = {
          'result\'s own (status, reason, message); 48 result constructions take the triple from the same-named batch-item fields; decode errors '
          'propagate; framing loop bounded and complete; version mapping is the identity. Payload data field naming beyond the triple is not decided.',
          'Trusted: socket.recv semantics. Request decodability (R5) rests on the C01 schema agreement.'),
+ 'C07': ('structural check of the ORM table declarations, package-wide who-writes sweep for identifiers, CFG dominance (delete/commit, add -> commit -> identifier read)',
+         'AUTOINCREMENT primary key on the base table and foreign-key identifiers on all 11 stored classes; nobody assigns identifiers; Destroy deletes and '
+         'commits on every path; the 14 reads of new identifiers follow add() and commit(); lookups are exact-match single-row. These are the code-side '
+         'necessary conditions; non-reuse is SQLite\'s AUTOINCREMENT guarantee and restart/kill behaviour is outside static reach.',
+         'Trusted: SQLite AUTOINCREMENT, SQLAlchemy joined-table inheritance.'),
+ 'C08': ('CFG path analysis of the batch loop + typestate abstract interpretation (dirty/commit tracking) of all handlers + reaching definitions for the ID-placeholder fallback',
+         'Exactly one echoed result per completed iteration, break only on error and STOP, exceptions contained per item, no raise in the loop outside the '
+         'per-item try; no explicit raise with uncommitted or committed effects in any handler/helper context; closed placeholder write-set and a common '
+         'fallback shape in all 14 handlers. Exhaustive over syntactic paths; implicit third-party exceptions after a mutation are not decided.',
+         'Trusted: SQLAlchemy session flush semantics. Bounds: inlining depth 3, 96 disjuncts (exit 2 if hit).'),
+ 'C09': ('path-sensitive abstract interpretation of commit/mutation typestate per handler',
+         'Every normal return of each of the 10 mutating handlers is reached with exactly one commit, nothing pending and nothing mutated after the commit; '
+         'read-only handlers never commit; both key-pair halves precede the single commit. This is only the one-transaction-per-operation shape: crash points '
+         'inside SQLite/SQLAlchemy are runtime events that no static argument in reach can enumerate, so atomicity/durability of one commit is trusted.',
+         'Trusted: one Session.commit() = one atomic durable SQLite transaction.'),
+ 'C13': ('abstract interpretation with type refinement (attribute-on-union), value-class typing through the attribute factories, attribute-name set tracking for rule-table dereferences, explicit-raise classification',
+         'All 171 attribute reads on managed objects, 32 reads on decoded attribute values, 35 rule-table dereferences and 166 explicit raises are decided '
+         'for every syntactic path and calling context. Finds/decides the hasattr / applicability / supported-name guards the property rests on; implicit '
+         'exceptions of third-party libraries for particular values are not decided.',
+         'Trusted: wire-decoded provenance of payload objects; pie class table from kmip/pie/objects.py; T_USE-independent.'),
 }
 
 NOT_YET = 'check not built yet in this session (rules designed in DESIGN.md section 4); will be claimed once its check exists and is silent on the unchanged tree'
